@@ -76,12 +76,12 @@ class RawVoltageBackend(object):
             self.num_antennas = 1
             self.is_antenna_array = False
         elif isinstance(antenna_source, v_antenna.MultiAntennaArray):
-            self.num_antennas = self.antenna_source.num_antennas
+            self.num_antennas = int(self.antenna_source.num_antennas)
             self.is_antenna_array = True
         else:
             raise ValueError("Invalid type provided for 'antenna_source'.")
         self.sample_rate = self.antenna_source.sample_rate
-        self.num_pols = self.antenna_source.num_pols
+        self.num_pols = int(self.antenna_source.num_pols)
         self.fch1 = self.antenna_source.fch1
         self.ascending = self.antenna_source.ascending
             
@@ -147,7 +147,7 @@ class RawVoltageBackend(object):
                                       quantization.ComplexQuantizer)
         else:
             raise TypeError('Requantizer is incorrect type!')
-        self.num_bits = self.requantizer[0][0].num_bits
+        self.num_bits = int(self.requantizer[0][0].num_bits)
         self.num_bytes = self.num_bits // 8
         self.bytes_per_sample = 2 * self.num_pols * self.num_bits // 8
         self.total_obs_num_samples = None
